@@ -73,6 +73,18 @@ theorem check_valid_is_model (c : CV.Content) :
     Py.check_valid c = if CV.checkValid c then .ok () else .error PyErr.invalidExtension :=
   Src.check_valid_eq c
 
+/-- **the result shape computed by `get_subset` as written in dcmmeta.py is the model's `subsetShape`**
+    (split axis singular, trailing singular axes beyond the third removed) for every shape and axis; the
+    bounded rendering of the `while` loop never runs out of rounds -/
+theorem subset_shape_is_model (shape : List Nat) (dim : Nat) :
+    Py.subset_shape shape dim = .ok (DExt.subsetShape shape dim) :=
+  Src.subset_shape_eq shape dim
+
+/-- **the result shape computed by `from_sequence` as written in dcmmeta.py is the model's `outShapeOf`** -/
+theorem merge_shape_is_model {κ α : Type} (first : DExt κ α) (dim n : Nat) :
+    Py.merge_shape first.shape dim n = .ok (DExt.outShapeOf first dim n) :=
+  Src.merge_shape_eq first dim n
+
 /-- the translator translated every function of dcmmeta.py it is asked for -/
 theorem translator_complete_meta : Gen.codeMissingMeta = [] := rfl
 
